@@ -45,3 +45,26 @@ PROPS['C14'] = dict(
     explanation='Verus proves, for all inputs, the contracts of Row/FrequencyCounter/DoorKeeper/TinyLFU functions extracted from the current source, '
                 'and the C14 lemmas over those contracts.',
 )
+
+PROPS['C12'] = dict(
+    level='proof',
+    kani={'quick': ['ack/constructors_satisfy_j', 'ack/done_keeps_j_at_every_point', 'ack/done_through_acknowledgement',
+                    'ack/poll_from_any_j_state', 'ack/no_lost_wakeup', 'ack/earlier_poller_is_woken'], 'thorough': []},
+    floor={'quick': 6, 'thorough': 6},
+    assumptions=[
+        CONC.replace('Concurrency is NOT explored', 'Interleavings are explored only at statement granularity of done() against one complete poll()'),
+        'each top-level statement of done() and the whole of poll() is one atomic step with respect to the three shared cells (one atomic store or one locked section each)',
+        'sequential consistency (Release/Acquire orderings are not modelled)',
+    ],
+    explanation='Owicki-Gries style proof outline: J (done => status != Pending) is checked at every interference point of the real done(); '
+                'poll() is checked from every J-state; a poll placed at any interference point is either Ready(real status) or woken later.',
+)
+
+PROPS['C16'] = dict(
+    level='proof',
+    kani={'quick': ['stats/each_increment_touches_only_its_counter', 'stats/stats_type_indices', 'stats/clear_zeroes_everything',
+                    'stats/new_starts_at_zero', 'stats/hit_ratio_zero_only_without_hits', 'stats/hit_ratio_is_the_quotient',
+                    'cw/update_weight_stats_full_domain'], 'thorough': []},
+    floor={'quick': 7, 'thorough': 7},
+    assumptions=[CONC, 'AtomicU64::fetch_add wraps modulo 2^64 (hits + misses < 2^64 is assumed for the ratio)'],
+)
